@@ -803,4 +803,253 @@ Section TrackerCb.
         destruct (idict_get (t_tracks st) m1); simpl in P; rewrite P; simpl; [now rewrite app_nil_r | reflexivity]. }
     rewrite G. unfold trkc_deliver. apply flat_map_ext. intros [ev tr]. simpl. apply propagate_cut.
   Qed.
+  (* ---------------------------------------------------------------- where an exception comes from *)
+  (* [raised_last en ds e]: the last callback invocation of [ds] is the one that raised [e] *)
+  Definition raised_last (en : env) (ds : list delivery) (e : exn) : Prop :=
+    exists pre cb ev tr, ds = pre ++ [(cb, ev, tr)] /\ e_cb en cb ev tr = CbRaise e /\
+      (ev = DELETED -> exn_is_keyerror e = false).
+
+  Lemma propagate_raise_last (en : env) b tr ev e : snd (brkc_propagate en b tr ev) = CbRaise e ->
+    exists pre cb, fst (brkc_propagate en b tr ev) = pre ++ [(cb, ev, tr)] /\ e_cb en cb ev tr = CbRaise e.
+  Proof.
+    induction b as [|[d c] r IH]; simpl; [discriminate|]. destruct (trk_event_eqb ev d); [|exact IH].
+    destruct (e_cb en c ev tr) as [|e0] eqn:E.
+    - destruct (brkc_propagate en r tr ev) as [ds o]. simpl in *. intros H. destruct (IH H) as (pre & cb & E1 & E2).
+      exists ((c, ev, tr) :: pre), cb. rewrite E1. auto.
+    - simpl. intros [= <-]. exists [], c. auto.
+  Qed.
+
+  Lemma raised_last_app (en : env) pre ds e : raised_last en ds e -> raised_last en (pre ++ ds) e.
+  Proof. intros (p & cb & ev & tr & -> & A & B). exists (pre ++ p), cb, ev, tr. rewrite app_assoc. auto. Qed.
+
+  Lemma pop_track_exn (en : env) (st : tracker) m e : NoDup (keys (t_tracks st)) ->
+    rc_exn (trkc_pop_track en st m) = Some e -> raised_last en (rc_deliv (trkc_pop_track en st m)) e.
+  Proof.
+    intros ND. pose proof (pop_track_c en st m ND) as P. destruct (idict_get (t_tracks st) m) as [tr|]; simpl in P; rewrite P; simpl;
+      [|discriminate].
+    destruct (snd (brkc_propagate en (t_broker st) tr DELETED)) as [|e0] eqn:EP; simpl; [discriminate|].
+    destruct (exn_is_keyerror e0) eqn:K; [discriminate|]. intros [= <-].
+    destruct (propagate_raise_last en _ _ _ _ EP) as (pre & cb & E1 & E2). exists pre, cb, DELETED, tr. auto.
+  Qed.
+
+  Lemma pop_all_exn (en : env) ms e : forall st : tracker, NoDup (keys (t_tracks st)) ->
+    rc_exn (trkc_pop_all en st ms) = Some e -> raised_last en (rc_deliv (trkc_pop_all en st ms)) e.
+  Proof.
+    induction ms as [|m0 r IH]; intros st ND; simpl; [discriminate|].
+    pose proof (pop_track_exn en st m0) as PE. pose proof (pop_track_c en st m0 ND) as P.
+    destruct (rc_exn (trkc_pop_track en st m0)) as [e0|] eqn:EX; simpl.
+    - intros [= <-]. now apply PE.
+    - intros H. apply raised_last_app. apply IH; [|assumption].
+      destruct (idict_get (t_tracks st) m0); simpl in P; rewrite P; simpl; [now apply nodup_keys_without | assumption].
+  Qed.
+
+  Lemma cleanup_exn (en : env) (st : tracker) now e : NoDup (keys (t_tracks st)) ->
+    rc_exn (trkc_cleanup en st now) = Some e -> raised_last en (rc_deliv (trkc_cleanup en st now)) e.
+  Proof.
+    intros ND. unfold trkc_cleanup. destruct (t_ttl st); [|discriminate]. destruct (t_oldest st); [|discriminate].
+    destruct (_ <? _); [discriminate|]. destruct (trk_cleanup_scan _ _ _ _ _) as [o' del]. now apply pop_all_exn.
+  Qed.
+
+  (* An operation raises either because an update is rejected (ValueError, nobody was called), or because the LAST
+     callback it invoked raised -- and then it raises that very exception; a KeyError of a DELETED callback never
+     leaves the operation. *)
+  Theorem exception_origin (en : env) (st : tracker) op e : reachable_any st ->
+    rc_exn (trkc_step nattrs en st op) = Some e ->
+    (rc_calls (trkc_step nattrs en st op) = [] /\ rc_deliv (trkc_step nattrs en st op) = [] /\ e = Py ValueError) \/
+    raised_last en (rc_deliv (trkc_step nattrs en st op)) e.
+  Proof.
+    intros R. apply reachable_any_sinv in R. destruct op as [now msg ts|now|m1|ev cb|ev cb]; simpl; try discriminate.
+    - destruct (update_c en st now msg ts R) as [[_ E]|(_ & I2 & E)]; rewrite E; simpl; [intros [= <-]; now left|].
+      destruct (snd (brkc_propagate en (t_broker st) _ _)) as [|e0] eqn:EP; simpl.
+      + intros H. right. apply raised_last_app. apply cleanup_exn; [|assumption]. apply (s_nodup _ (sinv_after_insert _ _ _ I2)).
+      + intros [= <-]. right. destruct (propagate_raise_last en _ _ _ _ EP) as (pre & cb & E1 & E2).
+        exists pre, cb, (upd_event st (m_mmsi msg)), (upd_result st (m_mmsi msg) (trk_msg_to_track nattrs msg ts now)).
+        repeat split; auto. intros X. unfold upd_event in X. destruct (idict_mem (t_tracks st) (m_mmsi msg)); discriminate.
+    - intros H. right. apply cleanup_exn; [apply (s_nodup _ R) | assumption].
+    - intros H. right. apply pop_track_exn; [apply (s_nodup _ R) | assumption].
+  Qed.
+
+  (* ================================================================================= 8. the quiet environment *)
+  (* With subscribers that return normally (and the set visited in insertion order) the general model IS the model
+     `trk_step` of Model/Tracker.v, about which Proofs/TrackerProofs.v (C12) speaks. *)
+  Lemma env_ok_quiet : env_ok (@trk_env_quiet V).
+  Proof. intros l x. simpl. tauto. Qed.
+
+  Lemma pop_track_broker (st : tracker) m : t_broker (fst (fst (trk_pop_track st m))) = t_broker st.
+  Proof. unfold trk_pop_track. destruct (idict_get (t_tracks st) m); reflexivity. Qed.
+
+  Lemma pop_track_quiet (st : tracker) m :
+    trkc_pop_track trk_env_quiet st m =
+    mkCResult (fst (fst (trk_pop_track st m))) (snd (fst (trk_pop_track st m)))
+              (trk_deliver (t_broker st) (snd (fst (trk_pop_track st m)))) (snd (trk_pop_track st m)) None.
+  Proof.
+    unfold trkc_pop_track, trk_pop_track. destruct (idict_get (t_tracks st) m) as [tr|]; [|reflexivity].
+    simpl. rewrite propagate_quiet. simpl. now rewrite app_nil_r.
+  Qed.
+
+  Lemma deliver_app_old b (c1 c2 : list call) : trk_deliver b (c1 ++ c2) = trk_deliver b c1 ++ trk_deliver b c2.
+  Proof. apply flat_map_app. Qed.
+
+  Lemma pop_all_quiet ms : forall st : tracker,
+    trkc_pop_all trk_env_quiet st ms =
+    mkCResult (fst (trk_pop_all st ms)) (snd (trk_pop_all st ms)) (trk_deliver (t_broker st) (snd (trk_pop_all st ms))) None None.
+  Proof.
+    induction ms as [|m r IH]; intros st; simpl; [reflexivity|]. rewrite pop_track_quiet. simpl.
+    pose proof (pop_track_broker st m) as B.
+    destruct (trk_pop_track st m) as [[s1 c1] r1]. simpl in *. rewrite IH. simpl.
+    destruct (trk_pop_all s1 r) as [s2 c2]. simpl. now rewrite deliver_app_old, B.
+  Qed.
+
+  Lemma cleanup_quiet (st : tracker) now :
+    trkc_cleanup trk_env_quiet st now =
+    mkCResult (fst (trk_cleanup st now)) (snd (trk_cleanup st now)) (trk_deliver (t_broker st) (snd (trk_cleanup st now))) None None.
+  Proof.
+    unfold trkc_cleanup, trk_cleanup. destruct (t_ttl st); [|reflexivity]. destruct (t_oldest st); [|reflexivity].
+    destruct (_ <? _); [reflexivity|]. destruct (trk_cleanup_scan _ _ _ _ _) as [o' del]. simpl.
+    now rewrite pop_all_quiet.
+  Qed.
+
+  Lemma set_oldest_broker (st : tracker) ts : t_broker (trk_set_oldest_timestamp st ts) = t_broker st.
+  Proof. apply set_oldest_same. Qed.
+
+  Lemma insert_or_update_quiet (st : tracker) m tr :
+    trkc_insert_or_update trk_env_quiet st m tr =
+    mkCResult (fst (fst (trk_insert_or_update st m tr))) (snd (fst (trk_insert_or_update st m tr)))
+              (trk_deliver (t_broker st) (snd (fst (trk_insert_or_update st m tr)))) None (snd (trk_insert_or_update st m tr)) /\
+    t_broker (fst (fst (trk_insert_or_update st m tr))) = t_broker st.
+  Proof.
+    unfold trkc_insert_or_update, trk_insert_or_update. destruct (idict_mem (t_tracks st) m).
+    - unfold trkc_update_track_m, trk_update_track_m. destruct (idict_get (t_tracks st) m) as [old|]; [|split; reflexivity].
+      destruct (_ <? _); [split; reflexivity|]. simpl. rewrite propagate_quiet. simpl. rewrite app_nil_r.
+      split; [reflexivity | rewrite set_oldest_broker; reflexivity].
+    - unfold trkc_insert_track, trk_insert_track. simpl. rewrite propagate_quiet. simpl. rewrite app_nil_r.
+      split; [reflexivity | rewrite set_oldest_broker; reflexivity].
+  Qed.
+
+  Lemma ensure_broker (st : tracker) ts : t_broker (fst (trk_ensure_timestamp_constraints st ts)) = t_broker st.
+  Proof.
+    unfold trk_ensure_timestamp_constraints. destruct (_ || _); [reflexivity|].
+    destruct (trk_poplast (t_tracks st)) as [[latest d]|]; [|reflexivity]. destruct (_ <? _); reflexivity.
+  Qed.
+
+  Theorem trkc_step_quiet (st : tracker) op :
+    rc_state (trkc_step nattrs trk_env_quiet st op) = r_state (trk_step nattrs st op) /\
+    rc_calls (trkc_step nattrs trk_env_quiet st op) = r_calls (trk_step nattrs st op) /\
+    rc_exn (trkc_step nattrs trk_env_quiet st op) = r_exn (trk_step nattrs st op) /\
+    rc_deliv (trkc_step nattrs trk_env_quiet st op) = trk_deliver (t_broker st) (r_calls (trk_step nattrs st op)) /\
+    (forall m, op = OpPop m -> rc_ret (trkc_step nattrs trk_env_quiet st op) = snd (trk_pop_track st m)).
+  Proof.
+    destruct op as [now msg ts|now|m|ev cb|ev cb]; simpl.
+    - unfold trkc_update, trk_update. pose proof (ensure_broker st (tr_lu (trk_msg_to_track nattrs msg ts now))) as B1.
+      destruct (trk_ensure_timestamp_constraints st _) as [st1 [e|]]; simpl in *; [repeat split; discriminate|].
+      destruct (insert_or_update_quiet st1 (m_mmsi msg) (trk_msg_to_track nattrs msg ts now)) as (E & B2). rewrite E.
+      destruct (trk_insert_or_update st1 _ _) as [[st2 calls] [e|]]; simpl in *.
+      + rewrite B1. repeat split; discriminate.
+      + rewrite cleanup_quiet. simpl. destruct (trk_cleanup st2 now) as [st3 c3]. simpl.
+        rewrite deliver_app_old, B2, B1. repeat split; discriminate.
+    - rewrite cleanup_quiet. destruct (trk_cleanup st now) as [st1 c]. simpl. repeat split; discriminate.
+    - rewrite pop_track_quiet. simpl. split; [|split; [|split; [|split]]].
+      1-4: destruct (trk_pop_track st m) as [[s1 c1] r1]; reflexivity.
+      intros m' [= <-]. reflexivity.
+    - repeat split; discriminate.
+    - repeat split; discriminate.
+  Qed.
+
+  Lemma trkc_run_quiet : forall (h : list (trk_op V)) (st : tracker),
+    fst (trkc_run nattrs st (map (fun op => (trk_env_quiet, op)) h)) = fst (trk_run nattrs st h).
+  Proof.
+    induction h as [|op r IH]; intros st; simpl; [reflexivity|].
+    destruct (trkc_step_quiet st op) as (E & _). specialize (IH (r_state (trk_step nattrs st op))). rewrite <- E in IH at 1.
+    destruct (trkc_run nattrs _ _) as [s1 r1]. destruct (trk_run nattrs _ r) as [s2 r2]. exact IH.
+  Qed.
+
+  (* every state of the model with quiet subscribers is a state the theorems of this file speak about *)
+  Lemma reachable_old_c (st : tracker) : reachable nattrs st -> reachable_c st.
+  Proof.
+    induction 1 as [ttl o|st op R IH]; [constructor|].
+    destruct (trkc_step_quiet st op) as (E1 & E2 & E3 & _). rewrite <- E1.
+    apply reach_c_step; [assumption | apply env_ok_quiet|].
+    apply reachable_inv in R. destruct op as [now msg ts|now|m|ev cb|ev cb]; try exact Logic.I; unfold step_ok; rewrite E2, E3.
+    - simpl. destruct (update_spec nattrs st now msg ts R) as [[_ E]|(_ & _ & E)]; rewrite E; simpl; auto.
+    - simpl. destruct (trk_cleanup st now). simpl. now left.
+  Qed.
 End TrackerCb.
+
+(* ================================================================================= statements over reachable states *)
+Section ReachableCb.
+  Context {V : Type}.
+  Variable nattrs : nat.
+
+  Lemma step_cfg_reachable_c (en : trk_env V) (st : trk_tracker V) op : reachable_any nattrs st ->
+    t_ordered (rc_state (trkc_step nattrs en st op)) = t_ordered st /\
+    t_ttl (rc_state (trkc_step nattrs en st op)) = t_ttl st.
+  Proof. intros R. apply step_cfg_c. now apply reachable_any_sinv. Qed.
+
+  Lemma step_events_reachable_c (en : trk_env V) (st : trk_tracker V) op m : reachable_any nattrs st ->
+    sp_events_of m (abs_calls (rc_calls (trkc_step nattrs en st op))) =
+      sp_expected_events (step_target_c op (trkc_step nattrs en st op)) m (idict_mem (t_tracks st) m)
+                         (idict_mem (t_tracks (rc_state (trkc_step nattrs en st op))) m) /\
+    (idict_mem (t_tracks st) m = false -> step_target_c op (trkc_step nattrs en st op) <> Some m ->
+     idict_mem (t_tracks (rc_state (trkc_step nattrs en st op))) m = false).
+  Proof. intros R. apply step_events_c. now apply reachable_any_sinv. Qed.
+
+  (* the environments the driver builds from the line protocol (and the Examples use) are within the theorems' scope *)
+  Lemma fold_set_add_in x : forall hint acc,
+    In x (fold_left (fun s y => trk_set_add y s) hint acc) <-> In x acc \/ In x hint.
+  Proof.
+    induction hint as [|h r IH]; intros acc; simpl; [tauto|]. rewrite IH, set_add_in. intuition.
+  Qed.
+
+  Lemma env_of_ok (rules : list (@trk_rule)) hint : env_ok (@trk_env_of V rules hint).
+  Proof.
+    intros l x. simpl. unfold trk_iter_by_hint. rewrite in_app_iff, !filter_In, fold_set_add_in.
+    rewrite negb_true_iff. fold (inset l x). fold (inset hint x). rewrite inset_iff, inset_false. simpl.
+    destruct (in_dec Z.eq_dec x hint); tauto.
+  Qed.
+End ReachableCb.
+
+(* ================================================================================= the finding *)
+(* Without the guard of `reachable_c` C13's first half is FALSE of pyais: once the exception of a subscriber has left
+   update() (a CREATED subscriber raises: the track is in the table, `__set_oldest_timestamp` was skipped) or cleanup()
+   (a DELETED subscriber raises something else than KeyError: `oldest_timestamp` was advanced by the scan, the loop over
+   the expired MMSIs ended at the first pop), oldest_timestamp is no lower bound of the tracks any more; a later
+   cleanup() returns early -- and normally -- although an expired track remains. *)
+Definition expiry_statement_any_state : Prop :=
+  forall (V : Type) (nattrs : nat) (en : trk_env V) (st : trk_tracker V) (op : trk_op V) (now T : Z),
+    reachable_any nattrs st -> env_ok en -> t_ttl st = Some T ->
+    (op = OpCleanup now \/ exists msg ts, op = OpUpdate now msg ts) ->
+    rc_exn (trkc_step nattrs en st op) = None ->
+    sp_ttl_ok T now (map (@tr_lu V) (trk_tracks (rc_state (trkc_step nattrs en st op))))
+              (deleted_lus (rc_calls (trkc_step nattrs en st op))).
+
+(* a CREATED subscriber raises KeyError for the first vessel; 13 ticks later (ttl 12) cleanup() keeps the track *)
+Definition witness_created : list (trk_env Z * trk_op Z) :=
+  let en := trk_env_of [(7, CREATED, None, Py KeyError)] [] in
+  [(en, OpAttach CREATED 7); (en, OpUpdate 0 (mkMsg 111 [MPresent (Some 1)]) (Some 0))].
+
+(* a DELETED subscriber raises ValueError: cleanup() at 12 pops 111, is left by the exception, keeps 222 (age 12);
+   oldest_timestamp is 8 by then, so cleanup() at 13 returns early *)
+Definition witness_deleted : list (trk_env Z * trk_op Z) :=
+  let en := trk_env_of [(7, DELETED, None, Py ValueError)] [] in
+  [(en, OpAttach DELETED 7); (en, OpUpdate 0 (mkMsg 111 [MPresent (Some 1)]) (Some 0));
+   (en, OpUpdate 0 (mkMsg 222 [MPresent (Some 2)]) (Some 0)); (en, OpUpdate 8 (mkMsg 333 [MPresent (Some 3)]) (Some 8));
+   (en, OpCleanup 12)].
+
+Theorem expiry_refuted_after_callback_exception : ~ expiry_statement_any_state.
+Proof.
+  intros H.
+  specialize (H Z 1%nat trk_env_quiet (fst (trkc_run 1 (trk_init (Some 12) false) witness_created)) (OpCleanup 13) 13 12).
+  assert (X : sp_ttl_ok 12 13 [0] []).
+  { apply H; [apply run_reachable_any; constructor | apply env_ok_quiet | reflexivity | now left | reflexivity]. }
+  destruct X as [X _]. inversion X as [|? ? X1 X2]; subst. cbv beta in X1. lia.
+Qed.
+
+Theorem expiry_refuted_after_aborted_cleanup :
+  let st := fst (trkc_run 1 (trk_init (Some 12) false) witness_deleted) in
+  let res := trkc_step 1 trk_env_quiet st (OpCleanup 13) in
+  reachable_any 1 st /\ rc_exn res = None /\ ~ sp_ttl_ok 12 13 (map (@tr_lu Z) (trk_tracks (rc_state res))) (deleted_lus (rc_calls res)).
+Proof.
+  intros st res. split; [apply run_reachable_any; constructor|]. split; [reflexivity|].
+  assert (E : map (@tr_lu Z) (trk_tracks (rc_state res)) = [0; 8]) by (vm_compute; reflexivity).
+  rewrite E. intros [X _]. inversion X as [|? ? X1 X2]; subst. cbv beta in X1. lia.
+Qed.
